@@ -50,6 +50,10 @@ func (c *FnCtx) special(frame *Frame, st *State, in ssa.Instruction, call *ssa.C
 		recv := args[0]
 		a := recv.A
 		if a == nil || a.Space != "F" {
+			if c.anonLock(frame, st, op) {
+				k(st, Val{K: KTuple})
+				return true
+			}
 			c.note("lock on a mutex that is not a struct field: no invariant")
 			k(st, Val{K: KTuple})
 			return true
@@ -57,6 +61,10 @@ func (c *FnCtx) special(frame *Frame, st *State, in ssa.Instruction, call *ssa.C
 		li := c.findLockInv(a.Key, a.Path)
 		mkey := a.Key + "." + a.Path + "@" + a.Idx[0]
 		if li == nil {
+			if c.anonLock(frame, st, op) {
+				k(st, Val{K: KTuple})
+				return true
+			}
 			c.note("mutex " + shortCallee(a.Key) + "." + a.Path + " has no lockinv")
 			k(st, Val{K: KTuple})
 			return true
@@ -501,4 +509,64 @@ func frameLabel(name string) string {
 		key = key[i+1:]
 	}
 	return parts[0] + ":" + key + ":" + parts[2]
+}
+
+// anonLock handles Lock/Unlock on a mutex that has no lock invariant in a function whose contract
+// names the state that mutex guards (on_lock havoc ...): other threads may have changed that state
+// until the lock is acquired, so it is havocked there, and old() refers to the state at that point.
+func (c *FnCtx) anonLock(frame *Frame, st *State, op string) bool {
+	fc := c.contract
+	if fc == nil || len(fc.OnLock) == 0 {
+		return false
+	}
+	switch op {
+	case "lock", "rlock":
+		st.held["$anon"] = true
+		if op == "rlock" {
+			st.held["$anon#r"] = true
+		}
+		if !st.lockedOnce {
+			st.lockedOnce = true
+			env := &SpecEnv{c: c, st: st, heap: st.heap, vars: map[string]Val{}, pkg: c.fn.Pkg.Pkg}
+			for n, v := range c.entryParams {
+				env.vars[n] = v
+			}
+			for _, m := range fc.OnLock {
+				c.havocModItem(st, env, m, nil)
+				env.heap = st.heap
+			}
+			c.note("on_lock: " + strings.Join(fc.OnLockText, ", ") + " havocked when the mutex is first acquired (interference by other threads); old() is the state at that point")
+			for _, r := range fc.RequiresLocked {
+				t, err := c.evalBool(env, r.Expr)
+				if err != nil {
+					c.errs = append(c.errs, fmt.Sprintf("%s:%d: requires_locked %s: %v", r.File, r.Line, r.Label, err))
+					continue
+				}
+				st.assume(t)
+				c.note("rely: requires_locked " + r.Label + " (" + r.Text + ") is assumed to hold when the lock is acquired")
+			}
+			st.oldHeap = copyHeap(st.heap)
+		}
+	case "unlock", "runlock":
+		st.held["$anon"] = false
+		delete(st.held, "$anon#r")
+	}
+	return true
+}
+
+// checkAnonGuarded flags accesses to slice-valued heap cells (the *[]byte shared between a blob and
+// its handles) made without holding the mutex, in functions that declare on_lock state.
+func (c *FnCtx) checkAnonGuarded(st *State, a *Addr, pos token.Pos, write bool) {
+	fc := c.contract
+	if fc == nil || len(fc.OnLock) == 0 || a.Space != "C" || kindOf(a.T) != KSlice {
+		return
+	}
+	if len(a.Idx) > 0 && c.stackRefs[a.Idx[0]] {
+		return
+	}
+	if !st.held["$anon"] {
+		c.addOblig(st, "lockdiscipline:unlocked-access:cell", "lockdiscipline", "false", "shared slice cell accessed without holding its mutex", pos)
+	} else if write && st.held["$anon#r"] {
+		c.addOblig(st, "lockdiscipline:write-under-rlock:cell", "lockdiscipline", "false", "shared slice cell written under a read lock", pos)
+	}
 }
